@@ -30,6 +30,7 @@ package util
 //@   fresh b
 //@   pure
 //@   ensures b != nil
+//@   ensures wire: tlvwf(stream(b)) && forall(t, 0, 256, tlvget(stream(b), t) == cval(c, t))
 
 // ---- tlv8Container (C16). wpre(t, n) is the wire encoding of the first n items (specification-only state; it grows
 // with the item list: ghostset). itemsOK(t) ties it to the real items, one local step per item, so that no proof needs
